@@ -108,7 +108,10 @@ func (c *checker) basics() bool {
 		c.fail("panic", opClass(c.st)+"|"+normalize(c.st.Panic), "operation "+c.st.Op.String()+" panicked: "+c.st.Panic)
 		return false
 	}
-	if c.st != nil && c.st.Err != "" {
+	if c.st != nil && c.st.Err != "" && strings.HasPrefix(c.st.Op.L, "fault") && strings.Contains(c.st.Err, "injected") {
+		// a Clean whose storage call was made to fail returns that error; what the repository reports
+		// afterwards is examined like after any other operation
+	} else if c.st != nil && c.st.Err != "" {
 		switch c.st.Op.K {
 		case "clean", "cleand", "save", "reload", "reloadd":
 			// maintenance on storage that never fails has no reason to fail: every property that is
